@@ -265,7 +265,7 @@ C(f"{F}:Parser.literal_eval", params={"self": "obj:Parser", "token": "Tok"}, ret
 for _nm, _kind, _what in (("ensure_real", 1, "real"), ("ensure_imaginary", 2, "imaginary")):
     C(f"{F}:Parser.{_nm}", params={"self": "obj:Parser", "number": "Tok"}, returns="lit", requires=TKW + ["tok_wf(number)"],
       ensures=[f"le_numkind(number.string) == {_kind}", "lit_val(result) == le_val(number.string)"],
-      raises=["SyntaxError"], raises_ensures=[WF], modifies=ERRMOD, properties=["C02", "C11"])
+      raises=["SyntaxError"], raises_ensures=[WF, ERR_AT("number")], modifies=ERRMOD, properties=["C02", "C11"])
 
 # ---------------------------------------------------------------------------------------------- implicit concatenation of plain literals (C01, C02)
 MIX = "any(le_isbytes(parts[j].string) != le_isbytes(parts[0].string) for j in range(1, len(parts)))"
@@ -504,7 +504,7 @@ C(f"{F}:Parser.set_decorators", params={"self": "obj:Parser", "target": "obj:Pos
 # f-string conversions `!s` `!r` `!a`: the node's conversion code is the character's code; anything else is a located error (C10, C11)
 C(f"{F}:Parser.check_fstring_conversion", params={"self": "obj:Parser", "name": "Tok"}, returns="int", requires=TKW + ["tok_wf(name)"],
   ensures=["(name.string == 's' and result == 115) or (name.string == 'r' and result == 114) or (name.string == 'a' and result == 97)"],
-  raises=["SyntaxError"], raises_ensures=[WF], modifies=ERRMOD, properties=["C10", "C11", "C02"])
+  raises=["SyntaxError"], raises_ensures=[WF, ERR_AT("name")], modifies=ERRMOD, properties=["C10", "C11", "C02"])
 
 # ---------------------------------------------------------------------------------------------- "cannot assign to / delete X" (C02, C11, C03)
 TNODE = "opt[union[obj:ast.List#t|obj:ast.Tuple#t|obj:ast.Starred#t|obj:ast.Compare#t|obj:ast.Name|obj:ast.Subscript#t|obj:ast.Attribute#t|obj:PosNode]]"
